@@ -542,7 +542,13 @@ func (tc *tcase) environ(root string) []string {
 
 // lay the case out under a fresh root; returns root ("" on failure)
 func (tc *tcase) materialise() string {
-	tmp, err := os.MkdirTemp("", "vhenv")
+	// C12: the sandbox lies below a directory whose name has glob meta-characters — what is removed is decided by the
+	// patterns relative to the project, never by the path that leads to it
+	pat := "vhenv"
+	if tc.prop == "C12" {
+		pat = "vh[e]nv{a,b}*"
+	}
+	tmp, err := os.MkdirTemp("", pat)
 	if err != nil {
 		return ""
 	}
@@ -817,6 +823,13 @@ var treePool = []entry{
 	{"f", projRel + "/sub/deep/d.txt", "d"},
 	{"f", projRel + "/docs/i.html", "<html>"},
 	{"f", projRel + "/docs/notes.md", "n"},
+	{"f", projRel + "/site/[id].html", "lit"},
+	{"f", projRel + "/site/i.html", "i"},
+	{"f", projRel + "/site/d.html", "d"},
+	{"f", projRel + "/a{b,c}.o", "braces"},
+	{"f", projRel + "/ab.o", "ab"},
+	{"f", projRel + "/q?.txt", "q"},
+	{"f", projRel + "/qx.txt", "qx"},
 	{"d", projRel + "/build", ""},
 	{"d", projRel + "/sub", ""},
 	{"f", projRel + "/.spok/cache.json", "{}"},
@@ -865,6 +878,8 @@ var litPool = []string{
 	"sub/deep", "sub/deep/c.o", "missing", "sub/missing/x", "missing/../out.txt", "../sib/s.txt", "../sib", "/sub/a.o", "/out.txt",
 	"docs", "docs/i.html", "build", "spokfile", ".spok", ".spok/cache.json", ".hidden.o", "sub/../sub/b.c", "sub/deep/../..",
 	"../proj", "../proj/out.txt", "../../home/proj/top.o", "/",
+	// no `*`: literal paths, whatever other characters they hold
+	"site/[id].html", "a{b,c}.o", "q?.txt", "site/[!x].html", "[a-z]b.o",
 }
 
 // outputs below a regular file: os.Stat / os.RemoveAll answer ENOTDIR; such a path is simply absent (repair 85950c0)
@@ -1206,6 +1221,8 @@ var execPool = []execSample{
 	{"printf '   '", "   ", 0},
 	{"true", "", 0},
 	{"echo '{{.FOO}} $FOO'", "{{.FOO}} $FOO\n", 0},
+	// more than 64 KiB: a value is the WHOLE standard output
+	{"/usr/bin/head -c 70000 /dev/zero | /usr/bin/tr '\\0' y", strings.Repeat("y", 70000), 0},
 	{"exit 3", "", 3},
 	{"false", "", 1},
 	{"echo partial; exit 2", "partial\n", 2},
@@ -1215,6 +1232,8 @@ var execPool = []execSample{
 func (g *gen) c13Random() *tcase {
 	tc := &tcase{prop: "C13", judge: true, cwd: projRel}
 	tc.amb = [][2]string{{"HOME", "/S/" + homeRel}, {"PATH", "/usr/bin:/bin"}}
+	// `cur` is a symbolic link to a directory that exists: join(...) is the LEXICAL join, whatever the path leads through
+	tc.tree = append(tc.tree, entry{"f", homeRel + "/sib/s.txt", "s"}, entry{"l", projRel + "/cur", "../sib"})
 	names := append([]string{}, envNames...)
 	g.rng.Shuffle(len(names), func(i, j int) { names[i], names[j] = names[j], names[i] })
 	nv := 1 + g.rng.Intn(5)
@@ -1244,7 +1263,7 @@ func (g *gen) c13Random() *tcase {
 		case r < 8:
 			d.kind = "J"
 			for k := g.rng.Intn(4); k > 0; k-- {
-				d.args = append(d.args, g.pick([]string{"a", "..", "b", ".", "", "c/d", "/x", "e/", "//f", "../..", "/S/" + homeRel}))
+				d.args = append(d.args, g.pick([]string{"a", "..", "b", ".", "", "c/d", "/x", "e/", "//f", "../..", "/S/" + homeRel, "cur", "cur/s.txt", "cur/.."}))
 			}
 			// never climb above the sandbox root: there /S (one level) and the real root (two levels) differ
 			if g.chance(0.2) || !staysInSandbox(d.args) {
